@@ -88,6 +88,10 @@ def near_misses(rng):
     S = ais.sentence
     out += [S(p, fill=5), S(p, fill=6), S(p, fill_txt=b"06", fill=6), S(p, fill_txt=b"05", fill=5),
             S(p, fill_txt=b"", fill=0), S(p, fill_txt=b"5x", fill=5), S(p, fill_txt=b"10", fill=0)]
+    # the fill count is checked on every line, fragment or not, first, middle or last
+    for (n, k) in ((2, 1), (3, 2), (2, 2), (9, 1)):
+        for ft in (b"5", b"6", b"7", b"9", b"10", b"255", b"06"):
+            out.append(S(p, nf=n, fn=k, mid=7, fill_txt=ft, fill=0))
     out += [S(p, nf=255, fn=255, **base), S(p, nf_txt=b"256", **base), S(p, nf_txt=b"0256", **base),
             S(p, nf_txt=b"0255", nf=255, fn=255, **base), S(p, fn_txt=b"256", **base), S(p, nf_txt=b"", **base),
             S(p, fn_txt=b"", **base), S(p, nf_txt=b"1a", **base), S(p, nf_txt=b"-1", **base), S(p, nf_txt=b"+1", **base),
@@ -294,6 +298,22 @@ class C02(SentProp):
             for m in near_misses(rng):
                 ops += ["N 0", L(m, dec=0)]
         yield ("near-miss", ops)
+        # the checksum covers every byte between delimiter and '*', however long that region is
+        ops = []
+        for n in ([60, 200, 300, 360, 370, 375, 380, 383, 384, 385, 500, 1000] if tier == "quick" else list(range(340, 420)) + [1000, 5000]):
+            payload = gen.random_alphabet(rng, n)
+            good = ais.sentence(payload, fill=0)
+            region = good[1:good.index(b"*")]
+            ops += ["N 0", L(good, dec=0)]
+            for k in (1, 2, 15, 16, 64, 128, 255, 256, 383, 384, 385, 398, 399, 400, len(region) - 1):
+                if 0 < k < len(region):
+                    # only a prefix of the region is covered by the transmitted value
+                    ops += ["N 0", L(good[:good.index(b"*") + 1] + b"%02X" % ais.xor_all(region[:k]), dec=0)]
+            for pos in [1, 2, len(region) // 2] + list(range(max(1, len(region) - 40), len(region))):
+                flipped = bytearray(good)
+                flipped[1 + pos] ^= rng.choice([1, 2, 4, 16, 64])
+                ops += ["N 0", L(bytes(flipped), dec=0)]
+        yield ("long-region", ops)
 
     @staticmethod
     def state_prefix(rng, nf, fn, mid):
@@ -542,17 +562,39 @@ class C19(SentProp):
                     else:
                         ops += ["N 0", L(ais.sentence(payload), 0, 0)]
         yield ("first-char", ops)
+        # payloads of 0..4 characters: still one first character (or none: then the line is not accepted)
+        ops = []
+        for n in range(0, 5):
+            for _ in range(6):
+                payload = gen.random_alphabet(rng, n)
+                for (nf, fn, mid) in ((1, 1, None), (2, 1, 7), (3, 2, 7)):
+                    ops += ["N 0", L(ais.sentence(payload, nf=nf, fn=fn, mid=mid, fill=0), 0, rng.randrange(2))]
+                ops += ["N 0", L(ais.sentence(payload, nf=2, fn=1, mid=7, fill=0), 0, 1),
+                        L(ais.sentence(b"?03Owo@nwsI0D00", nf=2, fn=2, mid=7, fill=2), 0, 1)]
+        yield ("short-payloads", ops)
         # the type of a sentence must not depend on what the parser saw before: abandoned groups,
         # delivered groups, middle fragments, tag blocks
         ops = []
         for _ in range(150 if tier == "quick" else 2000):
             ops.append("N 0")
+            dec = rng.randrange(2)
             for _ in range(rng.randrange(2, 7)):
                 c = rng.choice(gen.ALPHABET)
                 payload = bytes([c]) + gen.random_alphabet(rng, rng.choice([1, 5, 27]))
-                shape = rng.randrange(5)
+                shape = rng.randrange(7)
                 tb = rng.choice([None, None, b"s:1,c:2*00"])
-                if shape == 0:
+                if shape >= 5:
+                    # a whole group of a supported type, decodable or cut short (the decode then fails)
+                    tt = rng.choice([15, 16, 1, 5, 8])
+                    bs = gen.full_payload(tt, gen.base_fields(tt, rng, ais.LAYOUTS[tt]))
+                    if shape == 6:
+                        bs = bs[:rng.randrange(2, 8)]
+                    pl, fl = ais.armor(ais.bytes_to_bits(bs))
+                    k = rng.randrange(1, len(pl))
+                    mid = rng.choice([None, 1, 2])
+                    ops.append(L(ais.sentence(pl[:k], nf=2, fn=1, mid=mid, fill=0), 0, dec))
+                    ops.append(L(ais.sentence(pl[k:], nf=2, fn=2, mid=mid, fill=fl), 0, dec))
+                elif shape == 0:
                     ops.append(L(ais.sentence(payload, tagblock=tb), 0, 0))
                 elif shape == 1:
                     ops.append(L(ais.sentence(payload, nf=2, fn=1, mid=rng.choice([None, 1, 2]), tagblock=tb), 0, 0))
@@ -575,12 +617,20 @@ class C19(SentProp):
             rep.evaluations += 1
             line = op_line(op)
             pa, pm = parse_answer(a), parse_answer(m)
+            hist = ops[max(i for i in range(ops.index(op) + 1) if ops[i].startswith("N ")):ops.index(op) + 1] if label != "first-char" else ["N 0", op]
+            if (pa["cls"] in ("C", "I")) != (pm["cls"] in ("C", "I")):
+                rep.violation(f"C19: the line is {'accepted' if pa['cls'] in ('C', 'I') else 'rejected'} by the implementation and "
+                              f"{'accepted' if pm['cls'] in ('C', 'I') else 'rejected'} by the model (a type is reported for exactly the accepted lines): {line[:60]!r}",
+                              {"cfg": cfg, "ops": hist, "impl": a, "model": m})
+                continue
             if pa["cls"] not in ("C", "I"):
                 continue
             rep.nontrivial.add(op)
-            if pa["cls"] == "C" and pa["sent"]["nf"] != "1":
-                # a completed group reports the last fragment's own type (its data is the concatenation)
-                pass
+            if pa["cls"] == "C" and pm["cls"] == "C" and (pa["msg_kind"], pa["msg"].get("message_type")) != (pm["msg_kind"], pm["msg"].get("message_type")):
+                rep.violation(f"C19: the decoded message is {pa['msg_kind']}/{pa['msg'].get('message_type')}, the model decodes "
+                              f"{pm['msg_kind']}/{pm['msg'].get('message_type')}: sentence-level and decoded type no longer refer to the same payload",
+                              {"cfg": cfg, "ops": hist, "impl": a, "model": m})
+                continue
             ref = ref_sentence(line)
             if ref[0] != "ok":
                 continue
